@@ -97,7 +97,14 @@ class ATr:
                     if n[1] == "nat":
                         return (f"(skipn {n[0]} {base[0]})", "idx")
                 self.bad(e, "slice")
+            if base[1] == "idx2" and isinstance(sl, ast.Tuple) and len(sl.elts) == 2 and isinstance(sl.elts[0], ast.Call) and dotted(sl.elts[0].func) == "np.arange" and len(sl.elts[0].args) == 1:
+                n_, k_ = self.expr(sl.elts[0].args[0], env), self.expr(sl.elts[1], env, "idx")
+                if n_[1] == "nat" and k_[1] == "idx":
+                    return (f"(map2 (fun (row : list nat) (k : nat) => nth k row O) {base[0]} {k_[0]})", "idx")    # rows[arange(n), k]: one entry per row
+                self.bad(e, "row-wise index")
             i = self.expr(sl, env, index_ty)
+            if base[1] == "arrF" and i[1] == "idx2":
+                return (f"(map (take_idx 0%Z {base[0]}) {i[0]})", "arrF2")
             if base[1] in ("arrG", "arrF", "arrO") and i[1] == "mask":
                 return (f"(pick {i[0]} {base[0]})", base[1])
             if base[1] in ("arrG", "arrF") and i[1] == "idx":
@@ -111,6 +118,14 @@ class ATr:
                 a, b = self.expr(e.args[0], env), self.expr(e.args[1], env)
                 if a[1] == b[1] == "nat":
                     return (f"(Nat.max {a[0]} {b[0]})", "nat")
+            if d in ("np.argmax", "np.argmin") and len(e.args) == 1 and [k.arg for k in e.keywords] == ["axis"] and isinstance(e.keywords[0].value, ast.Constant) and e.keywords[0].value.value == 1:
+                a = self.expr(e.args[0], env, index_ty)
+                if a[1] == "arrF2":
+                    return (f"(map (first_arg {'true' if d == 'np.argmax' else 'false'}) {a[0]})", "idx")
+            if d == "len" and len(e.args) == 1:
+                a = self.expr(e.args[0], env, index_ty)
+                if a[1] in ("arrF", "arrG"):
+                    return (f"(length {a[0]})", "nat")
             if d == "np.argsort" and len(e.args) == 1:
                 a = self.expr(e.args[0], env)
                 if a[1] == "arrF" and self.orders:
@@ -182,6 +197,10 @@ Definition take_idx {A} (d : A) (l : list A) (idx : list nat) : list A := map (f
 Definition rows_eq (eq : G -> G -> bool) (a b : list G) : list bool := map2 eq a b.                     (* np.all(a == b, axis=1) *)
 Definition rows_ne (eq : G -> G -> bool) (a b : list G) : list bool := map2 (fun x y => negb (eq x y)) a b.   (* np.any(a != b, axis=1) *)
 Definition where_nan (m : list bool) (a : list (option Z)) : list (option Z) := map2 (fun (b : bool) (x : option Z) => if b then x else None) m a.
+(* np.argmax / np.argmin along a row: the position of the FIRST extremum *)
+Fixpoint first_arg_from (mx : bool) (best : Z) (bi i : nat) (l : list Z) : nat :=
+  match l with [] => bi | x :: r => if (if mx then Z.ltb best x else Z.ltb x best) then first_arg_from mx x i (S i) r else first_arg_from mx best bi (S i) r end.
+Definition first_arg (mx : bool) (l : list Z) : nat := match l with [] => O | x :: r => first_arg_from mx x O 1 r end.
 """
 
 
@@ -399,6 +418,24 @@ def translate(repo):
     for cls in ("GaussianMutation", "UniformMutation", "ArithmeticCrossover"):
         out.append(f"Definition gen_{cls}_call (f : G -> Z) (evaluate_fitness : bool) (p : popo (G:=G)) (new : list G) : popo (G:=G) :=\n  {op_flow(cls)}.\n")
         fns.append(f"{SEA}:{cls}.__call__[flow]")
+
+    # TournamentSelection: the rows of the given population at the winners' indices; the draw of the tournaments is an oracle
+    fn = find_def(smod, "__call__", "TournamentSelection")
+    r = ret_of(fn, SEA)
+    e = Inliner(fn, SEA).inline(r.value, r)
+    draws = {ast.dump(n_): n_ for n_ in ast.walk(e) if isinstance(n_, ast.Call) and dotted(n_.func) == "np.random.randint"}
+    if len(draws) != 1:
+        raise Unsupported(f"{SEA}:{fn.lineno}: TournamentSelection draws its tournaments {len(draws)} times")
+    dr = list(draws.values())[0]
+    popn = fn.args.args[1].arg
+    if not (len(dr.args) == 3 and ast.unparse(dr.args[0]) == "0" and ast.unparse(dr.args[1]) == f"len({popn}.copy().fitnesses)"
+            and ast.unparse(dr.args[2]) == f"(len({popn}.copy().fitnesses), self.tournament_size)"):
+        raise Unsupported(f"{SEA}:{fn.lineno}: TournamentSelection: the tournaments are not np.random.randint(0, n, (n, tournament_size)): {ast.unparse(dr)[:120]}")
+    code, t = ATr(SEA, [], bind={ast.dump(dr): ("tour", "idx2")}).expr(e, {popn: ("p", "pop")}, "idx")
+    if t != "pop":
+        raise Unsupported(f"{SEA}: TournamentSelection returns {t}")
+    out.append(f"Definition gen_TournamentSelection_call (mx : bool) (p : pop (G:=G)) (tour : list (list nat)) : pop (G:=G) :=\n  {code}.\n")
+    fns.append(f"{SEA}:TournamentSelection.__call__")
 
     # DE.run / SHADE.run: what is returned, in terms of the parents and the evaluated trial population
     dmod = ast.parse(open(f"{repo}/{DE}").read())
